@@ -119,17 +119,31 @@ theorem sMut_eq {sp : Sp α} {h c : Nat} (F : List α → List α) (hc : sp.hs[h
     sMut sp h F = { sp with cells := sp.cells.set c (F (sp.cells.getD c [])) } := by
   unfold sMut; rw [hc]
 
+/-- `op` implements `F` on the blocks that hold exactly `l` -/
+def RefinesAt (op : BS α → Option (BS α)) (F : List α → List α) (l : List α) : Prop :=
+  ∀ s k, Rep s l k → ∃ s' k', op s = some s' ∧ Rep s' (F l) k' ∧ s'.rc = s.rc ∧
+    s'.live = s.live + (F l).length - l.length
+
+theorem Refines.at {op : BS α → Option (BS α)} {F : List α → List α} (h : Refines op F) (l : List α) : RefinesAt op F l :=
+  fun s k hr => h s l k hr
+
+theorem sp_get_eq {sp : Sp α} {h c : Nat} (hc : sp.hs[h]? = some (some c)) : sp.get h = sp.cells.getD c [] := by
+  unfold Sp.get; rw [hc]
+
 /-- a member function that implements `F` on blocks, run through handle `h` without growing a shared block,
 is simulated by applying `F` to the cell of `h` -/
 theorem pMut_sim {st : St α} {sp : Sp α} {f : Nat → Nat} (hsim : Sim st sp f) {h : Nat} (hocc : st.occ h = true)
-    {op : BS α → Option (BS α)} {F : List α → List α} (href : Refines op F) (hg : pGuard st h op = false) :
+    {op : BS α → Option (BS α)} {F : List α → List α} (href : RefinesAt op F (sp.get h)) (hg : pGuard st h op = false) :
     ∃ st' f', pMut st h op = some st' ∧ Sim st' (sMut sp h F) f' ∧
       st'.hs.map Option.isSome = st.hs.map Option.isSome := by
   obtain ⟨b, hb⟩ := (occ_iff st h).mp hocc
   obtain ⟨r, hr⟩ := hsim.hl h b hb
   obtain ⟨l, k, hn, hcells, hpos, hcell, hrc, hrcpos⟩ := hsim.blk b r hr
   have hrep : Rep (r.toBS st.live) l k := ⟨hn, hcells, hpos⟩
-  obtain ⟨s', k', hop, hrep', hrc', hlive'⟩ := href _ l k hrep
+  have hspslot0 := hsim.sp_slot hb
+  have hgetl : sp.get h = l := by rw [sp_get_eq hspslot0, List.getD_eq_getElem?_getD, hcell]; rfl
+  rw [hgetl] at href
+  obtain ⟨s', k', hop, hrep', hrc', hlive'⟩ := href _ k hrep
   have hbo := blockOf_eq hb hr
   have hpm : pMut st h op = some (if s'.moved then
       { blocks := st.blocks.set b none ++ [some s'.toRaw], live := s'.live, hs := st.hs.set h (some st.blocks.length) }
@@ -646,5 +660,157 @@ theorem pMove_sim {st : St α} {sp : Sp α} {f : Nat → Nat} (hsim : Sim st sp 
         injection hx with h1; injection h1 with h2; subst h2
         exact hsim.hl src b hsrc
       · rw [List.getElem?_set_ne hd] at hx; exact hsim.hl sl x hx
+
+
+
+/-! ### composite handle operations -/
+
+def SimE (st : St α) (sp : Sp α) : Prop := ∃ f, Sim st sp f
+
+/-- occupancy vector of the handle slots -/
+def occv (st : St α) : List Bool := st.hs.map Option.isSome
+
+theorem empty_iff (st : St α) (x : Nat) : st.hs[x]? = some none ↔ (occv st)[x]? = some false := by
+  unfold occv; rw [List.getElem?_map]
+  cases h : st.hs[x]? with
+  | none => simp
+  | some o => cases o <;> simp
+
+theorem occ_iff_occv (st : St α) (x : Nat) : st.occ x = true ↔ (occv st)[x]? = some true := by
+  rw [occ_iff]; unfold occv; rw [List.getElem?_map]
+  cases h : st.hs[x]? with
+  | none => simp
+  | some o => cases o <;> simp
+
+theorem occ_false_iff (st : St α) (x : Nat) (hx : x < st.hs.length) : st.occ x = false ↔ st.hs[x]? = some none := by
+  have h1 := occ_iff_occv st x
+  have h2 := empty_iff st x
+  have hlt : x < (occv st).length := by simpa [occv] using hx
+  have := List.getElem?_eq_getElem hlt
+  cases hb : (occv st)[x] <;> cases ho : st.occ x <;> simp_all
+
+theorem SimE.occ_eq {st : St α} {sp : Sp α} (hs : SimE st sp) (h : Nat) : sp.occ h = st.occ h := by
+  obtain ⟨f, hf⟩ := hs; exact hf.occ_eq h
+
+theorem map_isSome_set_same (hs : List (Option Nat)) (i : Nat) (v o : Option Nat) (h : hs[i]? = some o)
+    (hv : v.isSome = o.isSome) : (hs.set i v).map Option.isSome = hs.map Option.isSome := by
+  rw [List.map_set]
+  apply List.ext_getElem?
+  intro j
+  rw [List.getElem?_set]
+  by_cases hij : i = j
+  · subst hij
+    have hlt := lt_of_getElem?_some h
+    simp only [if_true, List.length_map, hlt, List.getElem?_map, h, Option.map_some, hv]
+  · simp only [if_neg hij]
+
+theorem pAssign_sim {st : St α} {sp : Sp α} (hsim : SimE st sp) {dst src : Nat} (hd : st.occ dst = true) (hs : st.occ src = true) :
+    ∃ st', pAssign st dst src = some st' ∧ SimE st' (sAssign sp dst src) ∧ occv st' = occv st := by
+  unfold pAssign sAssign
+  by_cases he : dst = src
+  · rw [if_pos he, if_pos he]; exact ⟨st, rfl, hsim, rfl⟩
+  · rw [if_neg he, if_neg he]
+    obtain ⟨f, hf⟩ := hsim
+    obtain ⟨bd, hbd⟩ := (occ_iff st dst).mp hd
+    obtain ⟨bs, hbs⟩ := (occ_iff st src).mp hs
+    obtain ⟨st1, h1, hsim1, hhs1⟩ := pDrop_sim hf hbd
+    have hdlt := lt_of_getElem?_some hbd
+    have hd1 : st1.hs[dst]? = some none := by rw [hhs1, List.getElem?_set_self hdlt]
+    have hs1 : st1.hs[src]? = some (some bs) := by rw [hhs1, List.getElem?_set_ne he]; exact hbs
+    obtain ⟨st2, h2, hsim2, hhs2⟩ := pShare_sim hsim1 hd1 hs1
+    refine ⟨st2, by rw [h1, Option.bind_some, h2], ⟨f, hsim2⟩, ?_⟩
+    unfold occv
+    rw [hhs2, hhs1, List.set_set]
+    exact map_isSome_set_same st.hs dst (some bs) (some bd) hbd rfl
+
+theorem occv_get_set (v : List Bool) (i j : Nat) (b : Bool) (hi : i < v.length) :
+    (v.set i b)[j]? = if i = j then some b else v[j]? := by
+  rw [List.getElem?_set]; by_cases h : i = j <;> simp [h, hi]
+  subst h; simp [hi]
+
+/-- `if (!H[t]) H[t] = new C(); *H[t] = r;` and the temporary `r` (slot `T0`) dies -/
+theorem storeT0_sim (E : Elem α) {st : St α} {sp : Sp α} (hsim : SimE st sp) {t : Nat} (ht : t < NS) (hlen : st.hs.length = 8)
+    (hT0 : st.occ T0 = true) :
+    ∃ st', storeT0 E st t = some st' ∧ SimE st' (sStoreT0 sp t) ∧ occv st' = ((occv st).set t true).set T0 false := by
+  unfold storeT0 sStoreT0
+  have hne : t ≠ T0 := by unfold NS at ht; unfold T0; omega
+  have hocc_eq := hsim.occ_eq t
+  have hvlen : (occv st).length = 8 := by simp [occv, hlen]
+  -- step 1: make sure slot t holds an object
+  have h1 : ∃ st1, (if st.occ t then some st else pNew E st t 0 some) = some st1 ∧
+      SimE st1 (if sp.occ t then sp else sNew sp t []) ∧ occv st1 = (occv st).set t true := by
+    rw [hocc_eq]
+    cases ho : st.occ t
+    · simp only [Bool.false_eq_true, if_false]
+      obtain ⟨f, hf⟩ := hsim
+      have hempty : st.hs[t]? = some none := (occ_false_iff st t (by unfold NS at ht; omega)).mp ho
+      obtain ⟨st1, f1, hp, hs1, ho1⟩ := pNew_sim E hf (slot := t) (m := 0) (init := some) (l := []) hempty
+        (by intro s k hr; exact ⟨s, k, rfl, by simpa using hr, rfl, by simp⟩)
+      exact ⟨st1, hp, ⟨f1, hs1⟩, ho1⟩
+    · simp only [if_true]
+      refine ⟨st, rfl, hsim, ?_⟩
+      have := (occ_iff_occv st t).mp ho
+      apply List.ext_getElem?
+      intro i
+      rw [occv_get_set _ _ _ _ (by unfold NS at ht; omega)]
+      by_cases hi : t = i
+      · subst hi; simp [this]
+      · simp [hi]
+  obtain ⟨st1, hst1, hsim1, hov1⟩ := h1
+  rw [hst1, Option.bind_some]
+  have ht1 : st1.occ t = true := by
+    rw [occ_iff_occv, hov1, occv_get_set _ _ _ _ (by unfold NS at ht; omega)]; simp
+  have hT01 : st1.occ T0 = true := by
+    rw [occ_iff_occv, hov1, occv_get_set _ _ _ _ (by unfold NS at ht; omega), if_neg hne]
+    exact (occ_iff_occv st T0).mp hT0
+  obtain ⟨st2, hst2, hsim2, hov2⟩ := pAssign_sim hsim1 ht1 hT01
+  rw [hst2, Option.bind_some]
+  obtain ⟨f2, hf2⟩ := hsim2
+  have hT02 : st2.occ T0 = true := by rw [occ_iff_occv, hov2, ← occ_iff_occv]; exact hT01
+  obtain ⟨b2, hb2⟩ := (occ_iff st2 T0).mp hT02
+  obtain ⟨st3, hst3, hsim3, hhs3⟩ := pDrop_sim hf2 hb2
+  refine ⟨st3, hst3, ⟨f2, hsim3⟩, ?_⟩
+  show st3.hs.map Option.isSome = _
+  rw [hhs3, List.map_set]
+  show (occv st2).set T0 false = _
+  rw [hov2, hov1]
+
+/-- a new array holding `xs` is built in the temporary and stored into slot `t` -/
+theorem produce_sim (E : Elem α) {st : St α} {sp : Sp α} (hsim : SimE st sp) {t : Nat} (ht : t < NS) (hlen : st.hs.length = 8)
+    (hT0 : st.hs[T0]? = some none) (xs : List α) :
+    ∃ st', produce E st t xs = some (st', Res.ok) ∧ SimE st' (sProduce sp t xs) ∧ occv st' = (occv st).set t true := by
+  unfold produce sProduce okR
+  obtain ⟨f, hf⟩ := hsim
+  obtain ⟨st1, f1, hp, hs1, ho1⟩ := pNew_sim E hf (slot := T0) (m := xs.length) (init := fun s => assignFrom xs s 0) (l := xs) hT0
+    (by
+      intro s k hr
+      have hr' : Rep s ([] ++ List.replicate xs.length E.dflt ++ []) k := by simpa using hr
+      obtain ⟨s', h1, h2, h3, h4, _⟩ := assignFrom_rep xs [] _ [] s k 0 hr' (by simp) rfl
+      exact ⟨s', k, h1, by simpa using h2, h3, by rw [h4]; simp⟩)
+  rw [hp, Option.bind_some]
+  have hlen1 : st1.hs.length = 8 := by
+    have : (occv st1).length = 8 := by rw [show occv st1 = _ from ho1]; simp [hlen]
+    simpa [occv] using this
+  have hT01 : st1.occ T0 = true := by
+    rw [occ_iff_occv, show occv st1 = _ from ho1, occv_get_set _ _ _ _ (by simp [hlen, T0])]; simp
+  obtain ⟨st2, hst2, hsim2, hov2⟩ := storeT0_sim E ⟨f1, hs1⟩ ht hlen1 hT01
+  refine ⟨st2, by rw [hst2]; rfl, hsim2, ?_⟩
+  rw [hov2, show occv st1 = _ from ho1]
+  have hne : t ≠ T0 := by unfold NS at ht; unfold T0; omega
+  have hvlen : (st.hs.map Option.isSome).length = 8 := by simp [hlen]
+  have hT0f : (st.hs.map Option.isSome)[T0]? = some false := (empty_iff st T0).mp hT0
+  show (((st.hs.map Option.isSome).set T0 true).set t true).set T0 false = (st.hs.map Option.isSome).set t true
+  generalize st.hs.map Option.isSome = v at hvlen hT0f
+  have h8 : T0 < 8 := by unfold T0; omega
+  have ht8 : t < 8 := by unfold NS at ht; omega
+  apply List.ext_getElem?
+  intro i
+  rw [occv_get_set _ _ _ _ (by simp [hvlen]; exact h8), occv_get_set _ _ _ _ (by simp [hvlen]; exact ht8),
+    occv_get_set _ _ _ _ (by rw [hvlen]; exact h8), occv_get_set _ _ _ _ (by rw [hvlen]; exact ht8)]
+  by_cases h1 : T0 = i <;> by_cases h2 : t = i
+  · exact absurd (h2.trans h1.symm) hne
+  · rw [if_pos h1, if_neg h2, ← h1, hT0f]
+  · rw [if_neg h1, if_pos h2, if_pos h2]
+  · rw [if_neg h1, if_neg h2, if_neg h1, if_neg h2]
 
 end AslProofs.Arr
